@@ -47,7 +47,7 @@ def expected_inventory(names, s, a):
 
 def judge(names, s, a):
     fn = dyn.chain_fn(names)
-    outs, capped = dyn.outcomes(fn, s, a)
+    outs, capped = dyn.outcomes(fn, s, a, via_copy=len(names) > 1)  # chains through transition_with_copy, singles in place
     sig = {'action': a if a in ('PICK_N_DROP', 'ACTUATE') else 'other', 'front': dyn.front_class(s)}
     want_inv, box_cell = expected_inventory(names, s, a)
     exact = None
@@ -135,6 +135,8 @@ def make_hooks(env, name):
 
 
 def replay(case):
+    if case['kind'] == 'job':
+        return dyn.replay_job(case, _worker)
     if case['kind'] == 'step':
         return judge(tuple(case['names']), tup(case['s']), case['a'])[2]
     if case['kind'] == 'reach':
